@@ -1204,6 +1204,12 @@ LAW(L7_mixture, RC, 3000, 150000, 220, "always (compound family): 2-3 components
       double x = o.v[k]; LD ref = 0; if (!(x > ilo && x < ihi)) continue; double t = 4 * EPS; for (size_t i = 0; i < nc; ++i) { ref += wgt[i] * refP(comps[i].q, x); t += static_cast<double>(wgt[i]) * tolOf(comps[i].q.f).p; }
       CHECK(std::abs(d->pProb(x) - static_cast<double>(ref)) <= t + 1e-13, where << ": pProb(" << vf::dec(x) << ") = " << vf::dec(d->pProb(x)) << " but the mixture of the component cdfs is " << vf::dec(static_cast<double>(ref)));
     }
+    for (size_t k = 0; k < K; k += 1 + K / 6) {   // partial expectation = mixture of the component partial expectations (same points)
+      double x = o.v[k]; LD ref = 0; if (!(x > ilo && x < ihi)) continue; double t = 0;
+      for (size_t i = 0; i < nc; ++i) { ref += wgt[i] * refE(comps[i].q, x); t += static_cast<double>(wgt[i]) * tolOf(comps[i].q.f).e * scaleOf(comps[i].q); }
+      double E = d->Expectation(x);
+      CHECK(std::abs(E - static_cast<double>(ref)) <= t + 8 * EPS * std::abs(static_cast<double>(ref)) + 1e-13, where << ": Expectation(" << vf::dec(x) << ") = " << vf::dec(E) << " but the mixture of the component partial expectations is " << vf::dec(static_cast<double>(ref)));
+    }
     // values inside their own interval holds by construction of midpoint bounds when the extreme values lie in the domain
     bool inside = true; for (size_t i = 0; i < nc; ++i) if (comps[i].median) inside = false;
     if (inside) for (size_t k = 0; k < K; ++k) CHECK(o.v[k] >= o.b[k] - (K + 1) * prec && o.v[k] <= o.b[k + 1] + (K + 1) * prec, where << ": value " << vf::dec(o.v[k]) << " of class " << k << " lies outside its interval [" << vf::dec(o.b[k]) << ";" << vf::dec(o.b[k + 1]) << "]");
